@@ -70,6 +70,10 @@ func features() []feature {
 		g("float", "1.5", "2.5"), g("str", "\"a\"", "\"b\""), g("bytes", "b\"a\"", "b\"b\""), g("tuple", "(1, 2)", "(1, 3)"), g("list", "[1, 2]", "[1, 3]"),
 		g("dict", "{\"k\": 1}", "{\"k\": 2}"), g("dictkey", "{\"k\": 1}", "{\"j\": 1}"), g("set", "set([1, 2])", "set([1, 3])"), g("nested", "{\"k\": [1, (2, 3)]}", "{\"k\": [1, (2, 4)]}"),
 		g("none-bool", "(None, True)", "(None, False)"),
+		// values that are equal under == but that a function can tell apart
+		g("int-vs-float", "7", "7.0"), g("zero-sign", "0.0", "-0.0"), g("dict-order", "{\"a\": 1, \"b\": 2}", "{\"b\": 2, \"a\": 1}"), g("set-order", "set([1, 2])", "set([2, 1])"),
+		g("nested-int-vs-float", "[(1, 2)]", "[(1, 2.0)]"), g("dictkey-int-vs-float", "{1: \"x\"}", "{1.0: \"x\"}"),
+		{Name: "default-int-vs-float", Params: ", d3=3", Body: "    x_d3 = d3\n", Edits: []edit{{"change default to the equal float", ", d3=3", ", d3=3.0"}}},
 		{Name: "global-cyclic-list", Pre: "CY = [1]\nCY.append(CY)\n", Body: "    x_cy = CY\n", Edits: []edit{{"change element of cyclic list", "CY = [1]", "CY = [2]"}}},
 		{Name: "global-cyclic-dict", Pre: "CD = {\"a\": 1}\nCD[\"self\"] = CD\n", Body: "    x_cd = CD\n", Edits: []edit{{"change element of cyclic dict", "{\"a\": 1}", "{\"a\": 2}"}}},
 		{Name: "global-big-list", Pre: "BIG = list(range(2001))\n", Body: "    x_big = BIG[0]\n", Edits: []edit{{"one more element", "range(2001)", "range(2002)"}}},
@@ -278,8 +282,10 @@ func differingKeys(a, b starlark.Value) ([]string, error) {
 			continue
 		}
 		eq, err := starlark.EqualDepth(va, vb, 2000)
-		if err != nil {
-			// self-referential data: compare the two parts through two independent encodings
+		if err != nil || eq {
+			// self-referential data, or values that are equal under == (1 and 1.0, dict order) and
+			// that the function can still tell apart: compare the two parts through two
+			// independent encodings
 			var xa, xb bytes.Buffer
 			if e1, e2 := pickle.NewEncoder(&xa, nil).Encode(va), pickle.NewEncoder(&xb, nil).Encode(vb); e1 != nil || e2 != nil {
 				return nil, err
@@ -452,8 +458,10 @@ func main() {
 				viol("fingerprint-error:"+errClass(err), "fingerprinting the edited program failed: "+err.Error(), e.Name)
 				continue
 			}
+			// the fingerprint is the encoding (what the record stores); equality under == is not
+			// enough: 1 and 1.0, or two orders of a dict's entries, are different values to the function
 			eq, _ := sameEnv(l1, le)
-			if eq {
+			if eq = eq && bytes.Equal(l1.bytes, le.bytes); eq {
 				viol("edit-not-detected", "the edit leaves the fingerprint unchanged", e.Name)
 				continue
 			}
